@@ -1527,7 +1527,12 @@ fn c17_tcp_stray_rst_is_ignored() {
 /// Dropping the listener resets and reclaims every unaccepted child (handshaking or accept-ready)
 /// and the listener itself: no socket, binding or 4-tuple entry is left.
 fn listener_close(established: bool) {
-    let (mut k, lfd, child, _) = mk_listener_with_child(2, if established { TcpState::Established } else { TcpState::SynReceived });
+    listener_close_on(A, established)
+}
+/// `bind_ip`: the listener's bind address (a wildcard listener's children are bound to the concrete
+/// destination address of their SYN, not to the listener's address).
+fn listener_close_on(bind_ip: IpAddr, established: bool) {
+    let (mut k, lfd, child, _) = mk_listener_with_child_on(bind_ip, 2, if established { TcpState::Established } else { TcpState::SynReceived });
     if established {
         k.sockets.get_mut(lfd).unwrap().listen.as_mut().unwrap().ready.push_back(child);
     }
@@ -1538,6 +1543,8 @@ fn listener_close(established: bool) {
     assert!(k.sockets.get(child).is_none() && k.sockets.find_connection(L, R).is_none());
     let key = BindKey { domain: Domain::Inet, ty: Type::Stream, local_addr: A, local_port: 80 };
     assert!(k.sockets.find_by_bind(&key).is_empty(), "the port can be bound again");
+    let wkey = BindKey { domain: Domain::Inet, ty: Type::Stream, local_addr: bind_ip, local_port: 80 };
+    assert!(k.sockets.find_by_bind(&wkey).is_empty(), "the listener's own binding is gone");
     let mut told = false;
     let mut i = 0;
     while i < k.outbound.len() {
@@ -1563,6 +1570,22 @@ crate::verif_proof! { unwind = 8;
 fn c13_listener_close_resets_accept_ready_child() {
     listener_close(true);
     kani::cover!(true, "accept-ready child reset");
+}
+}
+// the same for a WILDCARD listener, whose children are bound to the SYN's concrete destination
+// address (seed C13-5: children looked up under the listener's own bind key are missed)
+// @verif id=C13 tier=quick role=listener_close timeout=900 desc=wildcard-listener-handshaking-child
+crate::verif_proof! { unwind = 8;
+fn c13_wildcard_listener_close_resets_handshaking_child() {
+    listener_close_on(IpAddr::V4(Ipv4Addr::UNSPECIFIED), false);
+    kani::cover!(true, "handshaking child of a wildcard listener reset");
+}
+}
+// @verif id=C13 tier=quick role=listener_close timeout=900 desc=wildcard-listener-accept-ready-child
+crate::verif_proof! { unwind = 8;
+fn c13_wildcard_listener_close_resets_accept_ready_child() {
+    listener_close_on(IpAddr::V4(Ipv4Addr::UNSPECIFIED), true);
+    kani::cover!(true, "accept-ready child of a wildcard listener reset");
 }
 }
 
